@@ -130,11 +130,19 @@ var c38Mutations = []c38Mutation{
 	}},
 	{"SetPathID", "a", func(f ingest.Feature, r *core.R) {
 		a := f.(*ingest.AreaFeature)
+		// any polygon with path ids, the last one as often as the first
+		var with []int
 		for i := 0; i < a.Len(); i++ {
 			if _, ok := a.PathIDs(i); ok {
-				a.SetPathID(i, 0, c38Other)
-				return
+				with = append(with, i)
 			}
+		}
+		if len(with) > 0 {
+			i := with[len(with)-1]
+			if r.Bool() {
+				i = core.Pick(r, with)
+			}
+			a.SetPathID(i, 0, c38Other)
 		}
 	}},
 	{"SetPathIDs", "a", func(f ingest.Feature, r *core.R) {
@@ -145,11 +153,19 @@ var c38Mutations = []c38Mutation{
 	}},
 	{"PathIDs-slice-element", "a", func(f ingest.Feature, r *core.R) {
 		a := f.(*ingest.AreaFeature)
+		var with []int
 		for i := 0; i < a.Len(); i++ {
 			if ids, ok := a.PathIDs(i); ok && len(ids) > 0 {
-				ids[0] = c38Other
-				return
+				with = append(with, i)
 			}
+		}
+		if len(with) > 0 {
+			i := with[len(with)-1]
+			if r.Bool() {
+				i = core.Pick(r, with)
+			}
+			ids, _ := a.PathIDs(i)
+			ids[0] = c38Other
 		}
 	}},
 	{"SetPolygon", "a", func(f ingest.Feature, r *core.R) {
@@ -209,7 +225,7 @@ func init() {
 	for _, m := range c38Mutations {
 		required = append(required, "mutation_"+m.name)
 	}
-	required = append(required, "world_basic-mutable", "world_mutable-overlay", "mode_new", "mode_replace", "clone_checks")
+	required = append(required, "world_basic-mutable", "world_mutable-overlay", "mode_new", "mode_replace", "clone_checks", "replacement_larger", "replacement_smaller")
 	core.Register(&core.Monitor{
 		ID:        "C38",
 		Title:     "Callers' feature values are isolated from the world",
@@ -234,8 +250,11 @@ func init() {
 			area := &wm.Spec{ID: b6.FeatureID{Type: b6.FeatureTypeArea, Namespace: ring.ID.Namespace, Value: ring.ID.Value}, Tags: g.RandomTags(1), Polys: []wm.Poly{{PathIDs: []b6.FeatureID{ring.ID}}}}
 			rel := &wm.Spec{ID: g.NewID(b6.FeatureTypeRelation, b6.NamespaceOSMRelation), Tags: g.RandomTags(1), Members: []b6.RelationMember{{ID: ps[0].ID, Role: "a"}, {ID: ring.ID, Role: "b"}}}
 			col := &wm.Spec{ID: g.NewID(b6.FeatureTypeCollection, "diagonal.works/ns/test"), Tags: g.RandomTags(1), Keys: []any{"k1", ps[1].ID}, Values: []any{1, 2}}
+			// a second ring, so that a replacement area can have more polygons than the stored one
+			ps2, ring2 := g.Ring(190000, 150000, 3000, 4, false)
 			specs = append(specs, ps...)
-			specs = append(specs, ring, area, rel, col)
+			specs = append(specs, ps2...)
+			specs = append(specs, ring, ring2, area, rel, col)
 			model := wm.ModelOf(specs)
 			// the subject: pick by case index so that all kinds are covered
 			var subject *wm.Spec
@@ -324,6 +343,28 @@ func init() {
 			callers := subject.Clone()
 			if mode == "replace" {
 				callers.Tags = append(g.RandomTags(1), b6.Tag{Key: "replaced", Value: b6.NewStringExpression("yes")})
+				// the replacement may be larger or smaller than the stored version (exercises the grow/shrink paths of MergeFrom)
+				switch r.Intn(3) {
+				case 0:
+					c.Count("replacement_larger")
+					switch subject.ID.Type {
+					case b6.FeatureTypeArea:
+						callers.Polys = append(callers.Polys, wm.Poly{PathIDs: []b6.FeatureID{ring2.ID}})
+					case b6.FeatureTypeRelation:
+						callers.Members = append(callers.Members, b6.RelationMember{ID: ring2.ID, Role: "extra"}, b6.RelationMember{ID: ps2[0].ID, Role: "extra2"})
+					case b6.FeatureTypeCollection:
+						callers.Keys = append(callers.Keys, "extra", ps2[1].ID)
+						callers.Values = append(callers.Values, 7, 8)
+					}
+				case 1:
+					c.Count("replacement_smaller")
+					switch subject.ID.Type {
+					case b6.FeatureTypeRelation:
+						callers.Members = callers.Members[:1]
+					case b6.FeatureTypeCollection:
+						callers.Keys, callers.Values = callers.Keys[:1], callers.Values[:1]
+					}
+				}
 			}
 			f := callers.Ingest()
 			if err := world.AddFeature(f); err != nil {
